@@ -374,7 +374,7 @@ func streamCompact(c *Ctx) {
 			c.dist("straddling-prefix")
 		}
 	}
-	nl := c.n(500, 30000)
+	nl := c.n(500, 10000)
 	for i := 0; i < nl; i++ {
 		k := c.rng.Range(1, 9)
 		txs := make([][]byte, k)
@@ -410,7 +410,7 @@ func streamCompact(c *Ctx) {
 }
 
 func streamCHist(c *Ctx) {
-	nh := c.n(2500, 60000)
+	nh := c.n(2500, 20000)
 	for i := 0; i < nh; i++ {
 		c.newCase()
 		ns := share.TxNamespace
@@ -492,6 +492,21 @@ func streamCHist(c *Ctx) {
 				}
 			}
 			c.emit("css ranges 0", strings.Join(sortedCopy(mstr), " "))
+		}
+		// C09 after any history: the exported sequence parses back to exactly the writes, declares the
+		// number of length-prefixed bytes and has the minimal number of shares
+		if err == nil && len(writes) > 0 {
+			c.oracle()
+			total := 0
+			for _, t := range writes {
+				total += uvarintLen(len(t)) + len(t)
+			}
+			got, perr := share.ParseTxs(sh)
+			if perr != nil || !eqTxs(got, writes) {
+				c.violate("C09", "", fmt.Sprintf("after the splitter history [%s] ParseTxs(Export()) returns %d txs (err=%v), %d were written", strings.TrimSpace(desc), len(got), perr, len(writes)), "", c.caseOps)
+			} else if int(sl) != total || len(sh) != share.CompactSharesNeeded(uint32(total)) {
+				c.violate("C09", "", fmt.Sprintf("after the splitter history [%s] the sequence declares %d bytes in %d shares; %d length-prefixed bytes were written (%d shares needed)", strings.TrimSpace(desc), sl, len(sh), total, share.CompactSharesNeeded(uint32(total))), "", c.caseOps)
+			}
 		}
 		// oracle C14b: fresh splitter fed only the writes
 		c.oracle()
